@@ -27,7 +27,7 @@ RULE = ("0-8 agents with arbitrary subsets of 4 component types and tags from {d
 COMPONENTS = {"real": ["ECAgent.Core.Environment.get_agents / get_random_agent / shuffle / add_agent / remove_agent",
                        "Agent.has_component", "Model.random", "SpaceWorld (some runs)"],
               "stub": ["component classes and agents are harness-defined; global random / numpy.random are perturbed"]}
-PROBES = ["position_subclass_component", "tag_zero_filter", "template_and_tag", "nobody_matches", "partial_template_match", "returned_list_mutated",
+PROBES = ["unfinished_walk_before_the_query", "position_subclass_component", "tag_zero_filter", "template_and_tag", "nobody_matches", "partial_template_match", "returned_list_mutated",
           "reach_all_members", "same_seed_repeat", "type_nobody_has", "spatial_world", "default_tag_agent", "retag_while_resident", "model_lifecycle_op", "subclass_component_only", "agent_is_an_environment", "ops_from_inside_a_timestep", "agent_class_with_class_components", "removal_refused_half_way", "history_continued_on_a_copy"]
 TECHNIQUE = "deterministic simulation: filter queries inside seeded add/remove histories vs a list-comprehension reference; bounded reachability over reseeded model generators; ambient RNG perturbation between picks"
 LEVEL_TEXT = ("Seeded search over populations, histories, templates and tag filters; every listing must equal the reference filter "
@@ -151,6 +151,10 @@ def generate(rng, tier):
         for o_ in ops:
             if "tmpl" in o_ and rng.random() < 0.5:
                 o_["tmpl"] = (o_["tmpl"] + [6]) if rng.random() < 0.5 or not o_["tmpl"] else [6 if i_ == 0 else t_ for i_, t_ in enumerate(o_["tmpl"])]
+    if rng.random() < 0.25:
+        for o_ in ops:
+            if "tmpl" in o_ and rng.random() < 0.5:
+                o_["walk"] = rng.choice(["break", "next", "any", "held"])
     return out
 
 
@@ -162,6 +166,7 @@ def execute(sc, ctx):
         ctx.probe("spatial_world")
     env = m.environment
     residents = []     # reference: agents in joining order
+    held_walks = []
     objs = {}
     shape = []
     flags = {"partial": False, "tag0": False, "cand2": False}
@@ -310,6 +315,22 @@ def execute(sc, ctx):
             flags["partial"] = True
         if len(want) >= 2:
             flags["cand2"] = True
+        if op.get("walk"):
+            # the caller walked over the environment just before - and left the walk unfinished (a search loop that found
+            # what it looked for, any(...), a half-used iterator it still holds): queries start from scratch regardless
+            ctx.probe("unfinished_walk_before_the_query")
+            w_ = op["walk"]
+            if w_ == "break":
+                for x_ in env:
+                    break
+            elif w_ == "next":
+                next(iter(env), None)
+            elif w_ == "any":
+                any(x_ is residents[min(1, len(residents) - 1)] for x_ in env) if residents else None
+            else:
+                held_walks[:] = [iter(env)]
+                for _ in range(1 + len(residents) // 2):
+                    next(held_walks[0], None)
         if kind == "get":
             got = ctx.expect_ok("get_agents", env.get_agents, *a_, **k_)
             ctx.event("get", tmpl, tag, [a.id for a in got] if isinstance(got, list) else repr(got))
